@@ -1441,4 +1441,434 @@ theorem asgs_optional_keeps (env : SpecEnv) (q : Query) (p : Path) (j : Nat)
   | false => simpa [pick, onQuery_modNode_id] using h
   | true => exact h'
 
+
+/-! ## §4 equalities through every context -/
+
+theorem evalFields_modify_eq (env : SpecEnv) (fuel : Nat) (owners : List Name) (v : Option VertexId)
+    (fields : List QField) (j : Nat) (g : QField → QField)
+    (h : ∀ fld, fields[j]? = some fld → ∀ as,
+      evalFields env fuel owners [g fld] v as = evalFields env fuel owners [fld] v as)
+    (as : List Asg) :
+    evalFields env fuel owners (fields.modify j g) v as = evalFields env fuel owners fields v as := by
+  induction fields generalizing j as with
+  | nil => simp
+  | cons f0 rest ih =>
+    cases j with
+    | zero => rw [List.modify_zero_cons, evalFields_cons, evalFields_cons _ _ _ f0, h f0 (by simp)]
+    | succ j =>
+      rw [List.modify_succ_cons, evalFields_cons, evalFields_cons _ _ _ f0 rest]
+      cases evalFields env fuel owners [f0] v as with
+      | ok as' => exact ih j (fun fld hf => h fld (by simpa using hf)) as'
+      | panic s => rfl
+      | fuel => rfl
+
+theorem outNamesFields_cons (fld : QField) (rest : List QField) :
+    outNamesFields (fld :: rest) = outNamesFields [fld] ++ outNamesFields rest := by
+  cases fld <;> simp [outNamesFields]
+
+theorem outNamesFields_modify (fields : List QField) (j : Nat) (g : QField → QField)
+    (h : ∀ fld, fields[j]? = some fld → outNamesFields [g fld] = outNamesFields [fld]) :
+    outNamesFields (fields.modify j g) = outNamesFields fields := by
+  induction fields generalizing j with
+  | nil => simp
+  | cons f0 rest ih =>
+    cases j with
+    | zero => rw [List.modify_zero_cons, outNamesFields_cons, h f0 (by simp), ← outNamesFields_cons]
+    | succ j =>
+      rw [List.modify_succ_cons, outNamesFields_cons, ih j (fun fld hf => h fld (by simpa using hf)),
+        ← outNamesFields_cons]
+
+theorem evalEdge_congr_child (env : SpecEnv) (fuel : Nat) (owners : List Name) (nm : Name)
+    (ps : Params) (k : Kind) (c c' : QNode) (v : Option VertexId) (a : Asg)
+    (he : ∀ v a, evalNode env fuel c' v a = evalNode env fuel c v a) (ho : outNames c' = outNames c) :
+    evalEdge env fuel owners nm ps k c' v a = evalEdge env fuel owners nm ps k c v a := by
+  cases k with
+  | plain => simp only [evalEdge_plain, he]
+  | optional => simp only [evalEdge_optional, he]
+  | recurse d => simp only [evalEdge_recurse, he]
+  | fold fds => simp only [evalEdge_fold, he, ho]
+
+/-- A rewriting of the node at the end of *any* path (folds included) that changes neither the
+node's denotation nor its output names changes nothing. -/
+theorem evalNode_modNode_eq (env : SpecEnv) (f : QNode → QNode) (p : Path) (n t : QNode)
+    (hd : descend anyKind p n = some t) (hout : outNames (f t) = outNames t)
+    (hloc : ∀ fuel v a, evalNode env fuel (f t) v a = evalNode env fuel t v a) :
+    (∀ fuel v a, evalNode env fuel (modNode f p n) v a = evalNode env fuel n v a) ∧
+      outNames (modNode f p n) = outNames n := by
+  induction p generalizing n with
+  | nil =>
+    simp only [descend, Option.some.injEq] at hd
+    subst hd
+    exact ⟨hloc, hout⟩
+  | cons i p ih =>
+    obtain ⟨ct, fields⟩ := n
+    have key : ∀ fld, fields[i]? = some fld →
+        (∀ fuel owners v as, evalFields env fuel owners [onChild (modNode f p) fld] v as =
+          evalFields env fuel owners [fld] v as) ∧
+        outNamesFields [onChild (modNode f p) fld] = outNamesFields [fld] := by
+      intro fld hf
+      cases fld with
+      | prop nm dirs => exact ⟨fun _ _ _ _ => rfl, rfl⟩
+      | edge nm ps k c =>
+        simp only [descend, hf, anyKind, if_true] at hd
+        obtain ⟨ih1, ih2⟩ := ih c hd
+        refine ⟨fun fuel owners v as => ?_, ?_⟩
+        · simp only [onChild, evalFields_single_edge]
+          exact flatMapR_congr fun a _ => evalEdge_congr_child env fuel owners nm ps k c _ v a (ih1 fuel) ih2
+        · simp [onChild, outNamesFields, ih2]
+    constructor
+    · intro fuel v a
+      cases fuel with
+      | zero => simp [evalNode_zero]
+      | succ fuel =>
+        simp only [modNode, evalNode_succ, bindProps_modify env v (PropsFixed.onChild _),
+          propFiltersHold_modify env v (PropsFixed.onChild _), afterFilters_eq_gate]
+        rw [evalFields_modify_eq env fuel _ v fields i _ (fun fld hf => (key fld hf).1 fuel _ v)]
+    · simp only [modNode, outNames]
+      exact outNamesFields_modify fields i _ (fun fld hf => (key fld hf).2)
+
+theorem asgs_modNode_eq (env : SpecEnv) (f : QNode → QNode) (p : Path) (q : Query) (t : QNode)
+    (hd : descend anyKind p q.root = some t) (hout : outNames (f t) = outNames t)
+    (hloc : ∀ fuel v a, evalNode env fuel (f t) v a = evalNode env fuel t v a) :
+    asgs env (onQuery (modNode f p) q) = asgs env q := by
+  simp only [asgs, onQuery]
+  exact flatMapR_congr fun v _ => (evalNode_modNode_eq env f p q.root t hd hout hloc).1 _ _ _
+
+theorem rows_of_asgs_eq {env : SpecEnv} {q q' : Query} (h : asgs env q' = asgs env q) :
+    rows env q' = rows env q := by
+  rw [rows_eq, rows_eq, h]
+
+/-! ### rewriting one filter directive in place -/
+
+theorem foldl_bindDir_modify (v : Option VertexId) (value : Value) (g : Dir → Dir)
+    (hg : ∀ d acc, bindDir v value acc (g d) = bindDir v value acc d) (dirs : List Dir) (k : Nat)
+    (a : Asg) : (dirs.modify k g).foldl (bindDir v value) a = dirs.foldl (bindDir v value) a := by
+  induction dirs generalizing k a with
+  | nil => simp
+  | cons d rest ih =>
+    cases k with
+    | zero => simp [List.modify_zero_cons, hg]
+    | succ k => simp only [List.modify_succ_cons, List.foldl_cons]; exact ih _ _
+
+theorem bindProps_modify_modDirF (env : SpecEnv) (v : Option VertexId) (g : Dir → Dir)
+    (hg : ∀ value d acc, bindDir v value acc (g d) = bindDir v value acc d)
+    (fields : List QField) (j k : Nat) (a : Asg) :
+    bindProps env v (fields.modify j (modDirF k g)) a = bindProps env v fields a := by
+  induction fields generalizing j a with
+  | nil => simp
+  | cons fld rest ih =>
+    cases j with
+    | zero =>
+      cases fld with
+      | prop nm dirs =>
+        simp only [List.modify_zero_cons, modDirF, bindProps_prop, foldl_bindDir_modify _ _ g (hg _)]
+      | edge nm ps k c => simp [List.modify_zero_cons, modDirF]
+    | succ j =>
+      cases fld with
+      | prop nm dirs => simp only [List.modify_succ_cons, bindProps_prop]; exact ih _ _
+      | edge nm ps k c => simp only [List.modify_succ_cons, bindProps]; exact ih _ _
+
+/-- Replacing the filter at position `k` by one with the same verdict keeps the verdict of the
+property's filters. -/
+theorem filtersHold_modify_dir (env : SpecEnv) (a : Asg) (v : Option VertexId) (left : Value)
+    (g : Dir → Dir) (dirs : List Dir) (k : Nat) (op op' : FOp) (arg arg' : QArg)
+    (hk : dirs[k]? = some (.filter op arg)) (hg : g (.filter op arg) = .filter op' arg')
+    (hsame : filterHolds env a v left op' arg' = filterHolds env a v left op arg) :
+    filtersHold env a v left (dirFilters (dirs.modify k g)) =
+      filtersHold env a v left (dirFilters dirs) := by
+  induction dirs generalizing k with
+  | nil => simp at hk
+  | cons d rest ih =>
+    cases k with
+    | zero =>
+      simp only [List.getElem?_cons_zero, Option.some.injEq] at hk
+      subst hk
+      simp only [List.modify_zero_cons, hg, dirFilters, List.filterMap_cons, filtersHold_cons, hsame]
+    | succ k =>
+      simp only [List.getElem?_cons_succ] at hk
+      have := ih k hk
+      simp only [dirFilters] at this
+      cases d with
+      | filter o x => simp only [List.modify_succ_cons, dirFilters, List.filterMap_cons, filtersHold_cons, this]
+      | tag n => simpa only [List.modify_succ_cons, dirFilters, List.filterMap_cons] using this
+      | output n => simpa only [List.modify_succ_cons, dirFilters, List.filterMap_cons] using this
+
+theorem outNamesFields_modDirF (g : Dir → Dir)
+    (hg : ∀ d, (match g d with | .output n => some n | _ => none) =
+      (match d with | .output n => some n | _ => none))
+    (fld : QField) (k : Nat) : outNamesFields [modDirF k g fld] = outNamesFields [fld] := by
+  cases fld with
+  | edge nm ps kd c => rfl
+  | prop nm dirs =>
+    simp only [modDirF, outNamesFields, List.append_nil]
+    induction dirs generalizing k with
+    | nil => simp
+    | cons d rest ih =>
+      cases k with
+      | zero =>
+        simp only [List.modify_zero_cons, List.filterMap_cons]
+        have := hg d
+        cases hd : g d <;> cases d <;> simp_all
+      | succ k =>
+        simp only [List.modify_succ_cons, List.filterMap_cons, ih k]
+
+/-! ### `=` and `one_of` with a single-element list -/
+
+theorem filterHolds_eq_oneOf (env : SpecEnv) (a : Asg) (v : Option VertexId) (left : Value)
+    (x w : Name) (val : Value)
+    (hx : (env.args.find? (·.1 == x)).map (·.2) = some val)
+    (hw : (env.args.find? (·.1 == w)).map (·.2) = some (.list [val])) :
+    filterHolds env a v left (.bin .oneOf) (.var w) = filterHolds env a v left (.bin .equals) (.var x) := by
+  cases v with
+  | none => rfl
+  | some u =>
+    simp only [filterHolds]
+    cases h1 : env.args.find? (·.1 == x) with
+    | none => simp [h1] at hx
+    | some kv1 =>
+      cases h2 : env.args.find? (·.1 == w) with
+      | none => simp [h2] at hw
+      | some kv2 =>
+        obtain ⟨n1, r1⟩ := kv1
+        obtain ⟨n2, r2⟩ := kv2
+        simp only [h1, Option.map_some, Option.some.injEq] at hx
+        simp only [h2, Option.map_some, Option.some.injEq] at hw
+        subst hx; subst hw
+        simp only [Filter.applyStatic, Filter.equalsOp, Filter.oneOf, Filter.oneOfLoop, R.ofOutcome,
+          Filter.equals_eq_beq]
+        congr 1
+        show (if Value.beq left r1 = true then true else false) = Value.beq left r1
+        cases Value.beq left r1 <;> rfl
+
+theorem bindDir_eqToOneOfD (w : Name) (v : Option VertexId) (value : Value) (d : Dir) (acc : Asg) :
+    bindDir v value acc (eqToOneOfD w d) = bindDir v value acc d := by
+  unfold eqToOneOfD
+  split <;> rfl
+
+theorem evalNode_eqToOneOf (env : SpecEnv) (j k : Nat) (x w : Name) (val : Value)
+    (hx : (env.args.find? (·.1 == x)).map (·.2) = some val)
+    (hw : (env.args.find? (·.1 == w)).map (·.2) = some (.list [val]))
+    (t : QNode) (nm : Name) (dirs : List Dir) (hj : (fieldsOf t)[j]? = some (.prop nm dirs))
+    (hk : dirs[k]? = some (.filter (.bin .equals) (.var x)))
+    (fuel : Nat) (v : Option VertexId) (a : Asg) :
+    evalNode env fuel (modField j (modDirF k (eqToOneOfD w)) t) v a = evalNode env fuel t v a := by
+  obtain ⟨ct, fields⟩ := t
+  simp only [fieldsOf] at hj
+  cases fuel with
+  | zero => simp [evalNode_zero]
+  | succ fuel =>
+    simp only [modField, evalNode_succ,
+      bindProps_modify_modDirF env v _ (fun value d acc => bindDir_eqToOneOfD w v value d acc),
+      afterFilters_eq_gate, evalFields_modify_props _ _ _ (EdgesFixed.modDirF k _)]
+    obtain ⟨P, Q, h1, h2⟩ := propFiltersHold_modify_split env (bindProps env v fields a) v fields j _ hj
+    rw [h2, h1]
+    congr 4
+    simp only [modDirF, fieldFilters]
+    exact filtersHold_modify_dir env _ v _ _ dirs k (.bin .equals) (.bin .oneOf) (.var x) (.var w) hk rfl
+      (filterHolds_eq_oneOf env _ v _ x w val hx hw)
+
+theorem asgs_eqToOneOf (env : SpecEnv) (q : Query) (p : Path) (j k : Nat) (x w : Name) (val : Value)
+    (hd : dirAt p j k q.root = some (.filter (.bin .equals) (.var x)))
+    (hx : (env.args.find? (·.1 == x)).map (·.2) = some val)
+    (hw : (env.args.find? (·.1 == w)).map (·.2) = some (.list [val])) :
+    asgs env (replaceEqByOneOf p j k w q) = asgs env q := by
+  simp only [dirAt, fieldAt] at hd
+  cases hdesc : descend anyKind p q.root with
+  | none => simp [hdesc] at hd
+  | some t =>
+    simp only [hdesc] at hd
+    cases hf : (fieldsOf t)[j]? with
+    | none => simp [hf] at hd
+    | some fld =>
+      cases fld with
+      | edge nm ps kd c => simp [hf] at hd
+      | prop nm dirs =>
+        simp only [hf] at hd
+        apply asgs_modNode_eq env _ p q t hdesc
+        · obtain ⟨ct, fields⟩ := t
+          simp only [modField, outNames]
+          apply outNamesFields_modify
+          intro fld _
+          apply outNamesFields_modDirF
+          intro d
+          cases d with
+          | filter op arg =>
+            have : ∃ op' arg', eqToOneOfD w (.filter op arg) = .filter op' arg' := by
+              unfold eqToOneOfD; split <;> exact ⟨_, _, rfl⟩
+            obtain ⟨op', arg', e⟩ := this
+            rw [e]
+          | tag n => rfl
+          | output n => rfl
+        · exact evalNode_eqToOneOf env j k x w val hx hw t nm dirs hf hd
+
+
+/-! ### a parameterised edge as a filter -/
+
+/-- Both variants give the same list (when both succeed). -/
+def eqRel : ListRel Bool where
+  Rel F := F false = F true
+  Good _ := True
+  nil := rfl
+  append h1 h2 := by simp only [h1, h2]
+  flatMap _ h := by simp only [h]
+
+theorem outNames_prependFilterProp (prop : Name) (op : FOp) (arg : QArg) (c : QNode) :
+    outNames (prependFilterProp prop op arg c) = outNames c := by
+  obtain ⟨ct, fields⟩ := c
+  simp [prependFilterProp, outNames, outNamesFields]
+
+theorem evalNode_prepend_none (env : SpecEnv) (fuel : Nat) (prop : Name) (op : FOp) (arg : QArg)
+    (c : QNode) (a : Asg) :
+    evalNode env fuel (prependFilterProp prop op arg c) none a = evalNode env fuel c none a := by
+  obtain ⟨ct, fields⟩ := c
+  cases fuel with
+  | zero => simp [evalNode_zero]
+  | succ fuel =>
+    simp only [prependFilterProp, evalNode_succ, afterFilters_eq_gate, bindProps_prop,
+      List.foldl_cons, List.foldl_nil, bindDir, propFiltersHold_cons, evalFields_prop]
+    simp [fieldFilters, dirFilters, filtersHold_cons, filtersHold, filterHolds]
+
+theorem evalNode_prepend_some (env : SpecEnv) (fuel : Nat) (prop : Name) (op : FOp) (arg : QArg)
+    (keep : VertexId → Bool) (n : VertexId)
+    (hfilter : ∀ a, filterHolds env a (some n) (env.data.prop n prop) op arg = .ok (keep n))
+    (c : QNode) (a : Asg) :
+    evalNode env (fuel + 1) (prependFilterProp prop op arg c) (some n) a =
+      if keep n then evalNode env (fuel + 1) c (some n) a else .ok [] := by
+  obtain ⟨ct, fields⟩ := c
+  simp only [prependFilterProp, evalNode_succ, afterFilters_eq_gate, bindProps_prop,
+    List.foldl_cons, List.foldl_nil, bindDir, propFiltersHold_cons, evalFields_prop]
+  simp only [fieldFilters, dirFilters, List.filterMap_cons, List.filterMap_nil, filtersHold_cons,
+    filtersHold, Data.propOpt, hfilter, andR_true_right]
+  cases keep n <;> simp [gate]
+
+theorem flatMapR_filter_eq {α β : Type} (f f' : α → R (List β)) (keep : α → Bool) (l : List α)
+    (h : ∀ n ∈ l, (∃ r, f' n = .ok r) → f' n = if keep n then f n else .ok [])
+    {l0 l1 : List β} (h0 : flatMapR f (l.filter keep) = .ok l0) (h1 : flatMapR f' l = .ok l1) :
+    l0 = l1 := by
+  induction l generalizing l0 l1 with
+  | nil => simp [flatMapR] at h0 h1; rw [h0, h1]
+  | cons x l ih =>
+    obtain ⟨r1, r2, hx, hl, rfl⟩ := flatMapR_cons_ok.mp h1
+    have hx' := h x (by simp) ⟨r1, hx⟩
+    rw [hx] at hx'
+    by_cases hk : keep x = true
+    · simp only [List.filter_cons, hk, if_true] at h0
+      obtain ⟨s1, s2, hs, hs2, rfl⟩ := flatMapR_cons_ok.mp h0
+      simp only [hk, if_true] at hx'
+      rw [hs] at hx'; cases hx'
+      rw [ih (fun n hn => h n (by simp [hn])) hs2 hl]
+    · simp only [List.filter_cons, hk] at h0
+      simp only [hk] at hx'
+      cases hx'
+      simp [ih (fun n hn => h n (by simp [hn])) h0 hl]
+
+theorem PropsFixed.paramToFilterF (nm' : Name) (ps' : Params) (prop : Name) (op : FOp) (arg : QArg) :
+    PropsFixed (paramToFilterF nm' ps' prop op arg) := by
+  refine ⟨fun _ _ => rfl, fun nm ps k c => ?_⟩
+  cases k <;> rfl
+
+theorem param_local (env : SpecEnv) (j : Nat) (nm nm' : Name) (ps ps' : Params) (prop : Name)
+    (op : FOp) (arg : QArg) (keep : VertexId → Bool)
+    (hdata : ∀ x : VertexId, edgeNbrs env (ownersOf env (some x)) nm ps (some x) =
+      (edgeNbrs env (ownersOf env (some x)) nm' ps' (some x)).filter keep)
+    (hfilter : ∀ n a, filterHolds env a (some n) (env.data.prop n prop) op arg = .ok (keep n))
+    (t : QNode) (k : Kind) (c : QNode) (hj : (fieldsOf t)[j]? = some (.edge nm ps k c))
+    (fuel : Nat) (v : Option VertexId) (a : Asg) :
+    RelR eqRel (fun i => evalNode env fuel
+      (pick id (modField j (paramToFilterF nm' ps' prop op arg)) i t) v a) := by
+  obtain ⟨ct, fields⟩ := t
+  simp only [fieldsOf] at hj
+  cases fuel with
+  | zero => exact RelR_of_not_ok _ _ true (by simp [evalNode_zero])
+  | succ fuel =>
+    have := RelR_evalNode_modify eqRel env fuel ct v
+      (fun i => pick id (paramToFilterF nm' ps' prop op arg) i)
+      (fun i => by cases i; exact PropsFixed.id; exact PropsFixed.paramToFilterF ..)
+      (fun _ => trivial) fields j _ hj ?_ a
+    · intro L hL
+      apply this L
+      intro i
+      cases i with
+      | false =>
+        have h := hL false
+        have e : fields.modify j id = fields := modify_eq_self _ _ _ (fun _ _ => rfl)
+        simp only [pick, id] at h ⊢
+        rw [e]; exact h
+      | true => simpa [pick, modField] using hL true
+    · intro a' L hL
+      have h0 := hL false
+      have h1 := hL true
+      simp only [pick, id] at h0 h1
+      show L false = L true
+      generalize L false = l0 at h0 ⊢
+      generalize L true = l1 at h1 ⊢
+      have hnode : ∀ n ∈ edgeNbrs env (ownersOf env v) nm' ps' v, ∀ a'',
+          (∃ r, evalNode env fuel (prependFilterProp prop op arg c) (some n) a'' = .ok r) →
+          evalNode env fuel (prependFilterProp prop op arg c) (some n) a'' =
+            if keep n then evalNode env fuel c (some n) a'' else .ok [] := by
+        intro n _ a'' hr
+        cases fuel with
+        | zero => obtain ⟨r, hr⟩ := hr; simp [evalNode_zero] at hr
+        | succ fuel => exact evalNode_prepend_some env fuel prop op arg keep n (hfilter n) c a''
+      cases k with
+      | plain =>
+        simp only [paramToFilterF, evalFields_single_edge_single, evalEdge_plain] at h0 h1
+        cases v with
+        | none =>
+          simp only [evalNode_prepend_none] at h1
+          rw [h1] at h0; cases h0; rfl
+        | some x =>
+          simp only [hdata x] at h0
+          exact flatMapR_filter_eq _ _ keep _ (fun n hn => hnode n hn a') h0 h1
+      | fold fds =>
+        simp only [paramToFilterF, evalFields_single_edge_single, evalEdge_fold,
+          outNames_prependFilterProp] at h0 h1
+        cases v with
+        | none => simp only at h0 h1; rw [h1] at h0; cases h0; rfl
+        | some x =>
+          simp only [hdata x] at h0
+          cases he0 : flatMapR (fun n => evalNode env fuel c (some n) { tags := a'.tags, outs := [] })
+              ((edgeNbrs env (ownersOf env (some x)) nm' ps' (some x)).filter keep) with
+          | ok e0 =>
+            cases he1 : flatMapR (fun n => evalNode env fuel (prependFilterProp prop op arg c) (some n)
+                { tags := a'.tags, outs := [] }) (edgeNbrs env (ownersOf env (some x)) nm' ps' (some x)) with
+            | ok e1 =>
+              have : e0 = e1 := flatMapR_filter_eq _ _ keep _ (fun n hn => hnode n hn _) he0 he1
+              subst this
+              simp only [he0] at h0
+              simp only [he1] at h1
+              rw [h1] at h0; cases h0; rfl
+            | panic s => simp [he1] at h1
+            | fuel => simp [he1] at h1
+          | panic s => simp [he0] at h0
+          | fuel => simp [he0] at h0
+      | optional =>
+        simp only [paramToFilterF] at h1
+        rw [h1] at h0; cases h0; rfl
+      | recurse d =>
+        simp only [paramToFilterF] at h1
+        rw [h1] at h0; cases h0; rfl
+
+theorem asgs_param_edge (env : SpecEnv) (q : Query) (p : Path) (j : Nat) (nm nm' : Name)
+    (ps ps' : Params) (prop : Name) (op : FOp) (arg : QArg) (keep : VertexId → Bool)
+    (hdata : ∀ x : VertexId, edgeNbrs env (ownersOf env (some x)) nm ps (some x) =
+      (edgeNbrs env (ownersOf env (some x)) nm' ps' (some x)).filter keep)
+    (hfilter : ∀ n a, filterHolds env a (some n) (env.data.prop n prop) op arg = .ok (keep n))
+    (hp : NoFoldPath p q.root) (k : Kind) (c : QNode)
+    (hf : fieldAt p j q.root = some (.edge nm ps k c))
+    (as as' : List Asg) (h : asgs env q = .ok as)
+    (h' : asgs env (paramEdgeToFilter p j nm' ps' prop op arg q) = .ok as') : as = as' := by
+  obtain ⟨t, hdesc⟩ := noFold_descend hp
+  have hft : (fieldsOf t)[j]? = some (.edge nm ps k c) := by
+    simpa [fieldAt, descend_fieldAt hdesc] using hf
+  have := RelR_asgs eqRel env false (fun _ _ _ _ => trivial)
+    (pick id (modField j (paramToFilterF nm' ps' prop op arg))) p q t hdesc
+    (fun fuel v a _ => param_local env j nm nm' ps ps' prop op arg keep hdata hfilter t k c hft fuel v a)
+    (pick as as')
+  apply this
+  intro i
+  cases i with
+  | false => simpa [pick, onQuery_modNode_id] using h
+  | true => exact h'
+
 end TF.SpecMeta
